@@ -48,24 +48,31 @@ Proof. exact LexemeFacts.ident_lexeme. Qed.
 Print Assumptions ident_lexeme.
 Theorem ws_lexeme : forall xs rest, ok_follow (LWs xs) rest = true -> wins (LWs xs) rest.
 Proof. exact LexemeFacts.ws_lexeme. Qed.
+Print Assumptions ws_lexeme.
 Theorem number_lexeme : forall n rest, ok_follow (LNum n) rest = true -> wins (LNum n) rest.
 Proof. exact LexemeFacts.number_lexeme. Qed.
 Print Assumptions number_lexeme.
 Theorem dimension_lexeme : forall n d e0 els rest, ok_follow (LDim n d e0 els) rest = true -> wins (LDim n d e0 els) rest.
 Proof. exact LexemeFacts.dimension_lexeme. Qed.
+Print Assumptions dimension_lexeme.
 Theorem percentage_lexeme : forall n rest, ok_follow (LPct n) rest = true -> wins (LPct n) rest.
 Proof. exact LexemeFacts.percentage_lexeme. Qed.
+Print Assumptions percentage_lexeme.
 Theorem hash_lexeme : forall els rest, ok_follow (LHash els) rest = true -> wins (LHash els) rest.
 Proof. exact LexemeFacts.hash_lexeme. Qed.
+Print Assumptions hash_lexeme.
 Theorem atkeyword_lexeme : forall d e0 els rest, ok_follow (LAt d e0 els) rest = true -> wins (LAt d e0 els) rest.
 Proof. exact LexemeFacts.at_lexeme. Qed.
+Print Assumptions atkeyword_lexeme.
 Theorem string_lexeme : forall q els rest, ok_follow (LStr q els) rest = true -> wins (LStr q els) rest.
 Proof. exact LexemeFacts.string_lexeme. Qed.
 Print Assumptions string_lexeme.
 Theorem comment_lexeme : forall seg0 st0 gs rest, ok_follow (LComment seg0 st0 gs) rest = true -> wins (LComment seg0 st0 gs) rest.
 Proof. exact LexemeFacts.comment_lexeme. Qed.
+Print Assumptions comment_lexeme.
 Theorem match_ops_lexeme : forall o rest, wins (LOp o) rest.
 Proof. exact LexemeFacts.op_lexeme. Qed.
+Print Assumptions match_ops_lexeme.
 Theorem delim_lexeme : forall c rest, ok_follow (LDelim c) rest = true -> wins (LDelim c) rest.
 Proof. intros c rest. apply lexeme_wins. Qed.
 Print Assumptions delim_lexeme.
@@ -85,6 +92,7 @@ Theorem resolved_types_table :
   mem_str (s "STRING") clean_types = true /\ mem_str (s "IDENT") clean_types = false /\
   mem_str (s "URI") clean_types = false.
 Proof. exact resolved_types_cover. Qed.
+Print Assumptions resolved_types_table.
 
 (* ---- the property: any adjacent sequence of lexemes of the proved classes is returned as exactly
         that sequence of (type, value) tokens                                                      *)
@@ -119,14 +127,19 @@ Proof. vm_compute. reflexivity. Qed.
 (* ---- classes covered by a finite sweep only (statements about exactly the listed texts) ---- *)
 Theorem uri_sweep_finite : forallb (fun c => tok_is (fst c) (snd c)) uri_cases = true.
 Proof. exact uri_sweep. Qed.
+Print Assumptions uri_sweep_finite.
 Theorem unicode_range_sweep_finite : forallb (fun c => tok_is (fst c) (snd c)) urange_cases = true.
 Proof. exact urange_sweep. Qed.
+Print Assumptions unicode_range_sweep_finite.
 Theorem function_vs_ident_sweep_finite : forallb (fun c => tok_is (fst c) (snd c)) function_cases = true.
 Proof. exact function_sweep. Qed.
+Print Assumptions function_vs_ident_sweep_finite.
 Theorem ident_u_escape_sweep_finite : forallb (fun c => tok_is (fst c) (snd c)) ident_u_cases = true.
 Proof. exact ident_u_sweep. Qed.
+Print Assumptions ident_u_escape_sweep_finite.
 Theorem context_delims_sweep_finite : forallb (fun c => tok_is (fst c) (snd c)) delim_cases = true.
 Proof. exact delim_sweep. Qed.
+Print Assumptions context_delims_sweep_finite.
 (* at-keyword respellings: finite sweep (every symbol, case / hex / literal-escape spellings) *)
 Theorem atkeyword_lookup_sweep_finite : forallb (fun c => tok_is (fst c) (snd c)) at_cases = true.
 Proof. exact at_sweep. Qed.
@@ -146,6 +159,7 @@ Theorem ident_value : forall d e0 els, wfu_els (dash_el d ++ e0 :: els) = true -
 Proof. exact ident_value_lemma. Qed.
 Theorem hash_value : forall els, wfu_els els = true -> classify (LHash els) = (s "HASH", 35%N :: denote els).
 Proof. exact hash_value_lemma. Qed.
+Print Assumptions hash_value.
 Print Assumptions ident_value.
 
 Example hex_escape_example :
